@@ -644,3 +644,52 @@ fn probe_cast_world_only() {
 fn probe_cast_int_sources_to_int() {
     cast_harness(1, &[K_BOOL, K_I32, K_U32]);
 }
+
+// ---- evaluate_constexpr: a cast node converts the value of its operand, and nested cast nodes apply in order ------
+// evaluate_cast is stubbed by a recorder that wraps the value in an Enum tagged with the target type id, so the result
+// shows which casts were applied, to what, in which order - without paying for the conversions themselves.
+// BOUNDED in shape (cast nesting depth <= 2); complete in the literal and in the choice of the three target types.
+fn stub_cast_recorder(ty: ir::TypeId, inner_value: ir::Constant, _m: &mut ir::Module) -> Result<ir::Constant, ()> {
+    Ok(ir::Constant::Enum(ir::EnumId(ty.0), Box::new(inner_value)))
+}
+
+#[kani::proof]
+#[kani::unwind(6)]
+#[kani::stub(evaluate_cast, stub_cast_recorder)]
+fn c13_constexpr_cast_nodes_apply_in_order_bounded() {
+    let m = leak_module();
+    let t_bool = m.type_registry.register_type(ir::TypeLayer::Scalar(ir::ScalarType::Bool));
+    let t_int = m.type_registry.register_type(ir::TypeLayer::Scalar(ir::ScalarType::Int32));
+    let t_uint = m.type_registry.register_type(ir::TypeLayer::Scalar(ir::ScalarType::UInt32));
+    let tys = [t_bool, t_int, t_uint];
+    let a: usize = kani::any();
+    let b: usize = kani::any();
+    kani::assume(a < 3 && b < 3);
+    let v: i32 = kani::any();
+    let nested: bool = kani::any();
+    let lit = ir::Expression::Literal(ir::Constant::Int32(v));
+    let expr = leak(if nested {
+        ir::Expression::Cast(tys[a], Box::new(ir::Expression::Cast(tys[b], Box::new(lit))))
+    } else {
+        ir::Expression::Cast(tys[a], Box::new(lit))
+    });
+    let r = leak(evaluate_constexpr(expr, m));
+    match r {
+        Ok(ir::Constant::Enum(outer, x)) => {
+            assert!(outer.0 == tys[a].0); // the outermost cast is applied last
+            if nested {
+                match &**x {
+                    ir::Constant::Enum(inner, y) => {
+                        assert!(inner.0 == tys[b].0); // ... to the result of the inner cast
+                        assert!(matches!(&**y, ir::Constant::Int32(w) if *w == v)); // ... of the operand's value
+                    }
+                    _ => assert!(false), // an inner cast was skipped
+                }
+            } else {
+                assert!(matches!(&**x, ir::Constant::Int32(w) if *w == v));
+            }
+        }
+        _ => assert!(false),
+    }
+    kani::cover!(true);
+}
